@@ -291,6 +291,157 @@ theorem synonym_filter_order_witness :
             [⟨"CONC".toList, .seq, "EXCL".toList⟩, ⟨"WGT".toList, .gt, "100".toList⟩]) := by
   decide
 
+/-! ## write / read histories (file system as a map path ↦ content) -/
+
+theorem fs_get_set_same (fs : FS) (p c : Str) : (fs.set p c).get p = some c := by
+  induction fs with
+  | nil => simp [FS.set, FS.get]
+  | cons h r ih =>
+    obtain ⟨q, d⟩ := h
+    by_cases hq : q = p
+    · simp [FS.set, FS.get, hq]
+    · simp [FS.set, FS.get, hq, ih]
+
+theorem fs_get_set_other (fs : FS) (p c q : Str) (h : q ≠ p) : (fs.set p c).get q = fs.get q := by
+  induction fs with
+  | nil => simp [FS.set, FS.get, Ne.symm h]
+  | cons hd r ih =>
+    obtain ⟨x, d⟩ := hd
+    by_cases hx : x = p
+    · subst hx
+      simp [FS.set, FS.get, Ne.symm h]
+    · by_cases hxq : x = q
+      · subst hxq
+        simp [FS.set, FS.get, h]
+      · simp [FS.set, FS.get, hx, hxq, ih]
+
+/-- **write_csv_overwrites.** A forced `write_csv` always succeeds; afterwards the target holds the
+    rendering of the model's dataset — whatever the file system held before and whatever
+    `datainfo.path` said —, `datainfo.path` is the target, no other file changed. -/
+theorem write_csv_overwrites (fs : FS) (st : MState) (t : Target) :
+    ∃ s', writeCsv fs st t true = .ok s' ∧
+      s'.1.get (resolve st t) = some (renderCsv st.dataset) ∧
+      s'.2.path = some (resolve st t) ∧ s'.2.dataset = st.dataset ∧
+      ∀ q, q ≠ resolve st t → s'.1.get q = fs.get q := by
+  refine ⟨(fs.set (resolve st t) (renderCsv st.dataset), { st with path := some (resolve st t) }), ?_, ?_, rfl, rfl, ?_⟩
+  · simp [writeCsv]
+  · exact fs_get_set_same _ _ _
+  · intro q hq; exact fs_get_set_other _ _ _ _ hq
+
+/-- without `force` the write is refused exactly when the target exists -/
+theorem write_csv_refuses (fs : FS) (st : MState) (t : Target) :
+    writeCsv fs st t false = .error .fileExists ↔ (fs.get (resolve st t)).isSome = true := by
+  unfold writeCsv
+  cases h : (fs.get (resolve st t)).isSome <;> simp [h]
+
+/-- every successful `write_csv` leaves the file `datainfo.path` points at in step with the dataset -/
+theorem insync_after_write (fs : FS) (st : MState) (t : Target) (force : Bool) (s' : FS × MState)
+    (h : writeCsv fs st t force = .ok s') : InSync s' := by
+  unfold writeCsv at h
+  by_cases hc : (!force && (fs.get (resolve st t)).isSome) = true
+  · simp [hc] at h
+  · simp only [hc] at h
+    injection h with h
+    subst h
+    intro p hp
+    simp only [Option.some.injEq] at hp
+    subst hp
+    exact fs_get_set_same _ _ _
+
+/-- every operation except "new dataset, same datainfo" keeps file and dataset in step -/
+theorem insync_step (s : FS × MState) (op : HOp) (h : InSync s) (hop : ∀ f, op ≠ .setData f true) :
+    InSync (hstep s op) := by
+  cases op with
+  | write t force =>
+    simp only [hstep]
+    cases hw : writeCsv s.1 s.2 t force with
+    | ok s' => exact insync_after_write _ _ _ _ _ hw
+    | error e => exact h
+  | setData f keep =>
+    cases keep with
+    | true => exact absurd rfl (hop f)
+    | false => intro p hp; simp [hstep, setData] at hp
+  | writeModel mp force =>
+    simp only [hstep, writeModel]
+    cases hp : s.2.path with
+    | none =>
+      simp only
+      split
+      · rename_i s' heq
+        exact insync_after_write _ _ _ _ _ heq
+      · exact h
+    | some q =>
+      intro p hp2
+      simp only at hp2 ⊢
+      exact h p (by rw [hp]; exact hp2)
+
+theorem history_insync (ops : List HOp) (s : FS × MState) (h : InSync s)
+    (hops : ∀ op ∈ ops, ∀ f, op ≠ .setData f true) : InSync (hrun s ops) := by
+  induction ops generalizing s with
+  | nil => exact h
+  | cons op ops ih =>
+    simp only [hrun, List.foldl_cons]
+    exact ih (hstep s op) (insync_step s op h (hops op (by simp))) (fun o ho => hops o (by simp [ho]))
+
+/-- **after any history** (including datasets replaced with the datainfo kept), a forced
+    `write_csv` puts the *current* dataset at its target. -/
+theorem history_forced_write_current (s : FS × MState) (ops : List HOp) (t : Target) :
+    (hstep (hrun s ops) (.write t true)).1.get (resolve (hrun s ops).2 t) =
+        some (renderCsv (hrun s ops).2.dataset) ∧
+    InSync (hstep (hrun s ops) (.write t true)) := by
+  obtain ⟨s', hw, hget, _, _, _⟩ := write_csv_overwrites (hrun s ops).1 (hrun s ops).2 t
+  simp only [hstep, hw]
+  exact ⟨hget, insync_after_write _ _ _ _ _ hw⟩
+
+/-- **render then split = id** (row level): what `write_csv` writes for a row — the items joined
+    by commas — is split by the reader into exactly those items, for every row of non-empty
+    items free of white space and commas. -/
+theorem split_rendered_row (items : List Str) (hne : items ≠ [])
+    (hp : ∀ w ∈ items, w ≠ [] ∧ ∀ c ∈ w, isPlain c = true) :
+    lineItems (joinWith ',' items) = items ∧ specItems (joinWith ',' items) = items := by
+  have hchars := joinWith_chars items (fun w hw => (hp w hw).2)
+  have hnosp : ∀ c ∈ joinWith ',' items, c ≠ ' ' := by
+    intro c hc
+    rcases hchars c hc with h | h
+    · exact (plain_props c h).1
+    · rw [h]; decide
+  -- first and last character
+  obtain ⟨x, xs, hx⟩ := List.exists_cons_of_ne_nil hne
+  have hxx := hp x (by rw [hx]; simp)
+  obtain ⟨c0, cs0, hc0⟩ := List.exists_cons_of_ne_nil hxx.1
+  obtain ⟨t0, ht0⟩ := joinWith_head x xs c0 cs0 hc0
+  rw [← hx] at ht0
+  have hc0p := plain_props c0 (hxx.2 c0 (by rw [hc0]; simp))
+  obtain ⟨t, c, ht, hc⟩ := joinWith_last items hne hp
+  have hcp := plain_props c hc
+  have hstrip : spStrip (joinWith ',' items) = joinWith ',' items := by
+    unfold spStrip
+    rw [dropSp_of_no_space _ hnosp, dropSp_of_no_space _ (fun c hc => hnosp c (by simpa using hc))]
+    simp
+  have hedge : edgeOk (joinWith ',' items) = true := by
+    unfold edgeOk
+    simp only [hstrip]
+    have h1 : (match joinWith ',' items with | c :: _ => !isPyWs c | [] => true) = true := by
+      rw [ht0]; simp [hc0p.2.2]
+    have h2 : (match (joinWith ',' items).reverse with | c :: _ => !isPyWs c | [] => true) = true := by
+      rw [ht]; simp [hcp.2.2]
+    rw [Bool.and_eq_true]
+    exact ⟨h1, h2⟩
+  have hspec : specItems (joinWith ',' items) = items := by
+    unfold specItems
+    rw [tok_lead_eq_item _ (fun r e => hc0p.1 (by rw [ht0] at e; injection e with e1 _)), tok_join items hne hp]
+  exact ⟨by rw [split_matches_rules_aux _ (noSpTab_of_no_space _ hnosp) hedge, hspec], hspec⟩
+
+
+/-- the stale-file situation is real when the dataset is replaced with the datainfo kept and nothing is written -/
+theorem stale_without_write_witness :
+    let f1 : Frame := ⟨[['A']], [[['1']]]⟩
+    let f2 : Frame := ⟨[['A']], [[['2']]]⟩
+    let s0 : FS × MState := ([("d.csv".toList, renderCsv f1)], ⟨f1, some "d.csv".toList, "m".toList⟩)
+    (hstep s0 (.setData f2 true)).1.get "d.csv".toList = some (renderCsv f1) ∧
+    (hstep (hstep s0 (.setData f2 true)) (.write (.file "d.csv".toList) true)).1.get "d.csv".toList = some (renderCsv f2) := by
+  decide
+
 /-! ## numbers -/
 
 /-- every text python's `float()` accepts (modelled alphabet) is a documented
